@@ -132,7 +132,31 @@ def build(env, reps):
             s.call("sk_to_pk", sk=sk, cls="sibling")
             s.call("decap", skr=sk, enc="$pe.enc", cls="sibling")
     build_toy(env, cw, g, reps)
+    build_mock_kem(env, cw, g, reps)
     return cw
+
+
+def build_mock_kem(env, cw, g, reps):
+    """The trait's DEFAULT methods (gen_keypair) and the plumbing around a KEM, with a KEM whose sizes are all 96 bytes
+    (harness/src/mockkem.rs): gen_keypair must equal DeriveKeyPair of the Nsk = 96 bytes drawn."""
+    kem = 0x7E57
+    n = gen.nsk(kem)
+    s = cw.session(kem, 1, 1, sid="mk")
+    s.call("sizes")
+    for L in (0, 1, n - 1, n, n + 1, 200, 1024):
+        s.call("derive_keypair", ikm=g.rbytes(L), cls="mock:len%d" % L)
+    for _ in range(reps):
+        s.call("gen_keypair", rng=g.raw(n).hex() + "aa" * 8, cls="mock")
+    s.call("gen_keypair", rng="00" * n + "aa" * 8, cls="mock")
+    gen.add_keys(s, g, kem, "kR")
+    gen.add_keys(s, g, kem, "kS")
+    s.call("sk_to_pk", sk="$kR.sk", cls="mock")
+    for _ in range(reps):
+        rng = g.raw(n).hex() + "aa" * 8
+        s.call("encap", pkr="$kR.pk", rng=rng, out="e", cls="mock")
+        s.call("decap", skr="$kR.sk", enc="$e.enc", cls="mock")
+        s.call("encap", pkr="$kR.pk", sks="$kS.sk", pks="$kS.pk", rng=rng, out="a", cls="mock")
+        s.call("decap", skr="$kR.sk", enc="$a.enc", pks="$kS.pk", cls="mock")
 
 
 def toy_table(rnd, kem, rows):
